@@ -69,6 +69,102 @@ class SimRLock(object):
         self.release()
 
 
+class TxLock(SimRLock):
+    """base.tx_lock of the simulated deployment.
+
+    In production every process has its own tx_lock and transactions of
+    different processes overlap under READ COMMITTED. All simulated nodes
+    share one SQLite connection, so whole transactions stay the unit of
+    interleaving, with one exception (the *overlap window*): a transaction
+    that has not written anything yet may be parked right before its first
+    write (its first DML statement, named lock or row lock); while it is
+    parked, transactions of OTHER nodes run to completion and commit, and
+    when it goes on it works with the (now stale) objects it had loaded and
+    sees the newly committed rows in its next statements - which is what
+    another process would experience between its reads and its first write.
+    Tasks of the node of a parked transaction cannot start a transaction
+    (their process-wide tx_lock is held).
+    """
+
+    def __init__(self, name='tx'):
+        super(TxLock, self).__init__(name, yield_on_acquire=True)
+        self.parked = {}          # task -> saved depth
+        self.windows = 0.0        # probability of opening a window
+        self.dirty = set()        # tasks whose current tx has written
+
+    def _free_for(self, me):
+        if self.owner is not None:
+            return False
+        for t in self.parked:
+            if t is not me and t.node is me.node:
+                return False
+        return True
+
+    def acquire(self, blocking=True, timeout=-1):
+        sim = _sim()
+        me = sim.me() if sim else None
+        if me is None:
+            return super(TxLock, self).acquire(blocking, timeout)
+        if self.owner is me:
+            self.depth += 1
+            return True
+        if self.yield_on_acquire:
+            sim.yield_point('tx', self.name)
+        while not self._free_for(me):
+            self.waiters.append(me)
+            sim.block(self, 'lock', self.name)
+        self.owner = me
+        self.depth = 1
+        self.dirty.discard(me)
+        return True
+
+    def release(self):
+        sim = _sim()
+        me = sim.me() if sim else None
+        if self.depth == 1 and me is not None:
+            self.dirty.discard(me)
+        super(TxLock, self).release()
+
+    def _wake(self):
+        sim = _sim()
+        if sim:
+            for w in self.waiters:
+                if w.blocked_on is self:
+                    sim.unblock(w)
+        self.waiters = []
+
+    def before_first_write(self, what=''):
+        """Called right before the first write of the current transaction
+        (first DML statement, named lock, row lock)."""
+        sim = _sim()
+        me = sim.me() if sim else None
+        if me is None or self.owner is not me or me in self.dirty:
+            return
+        self.dirty.add(me)
+        if not self.windows or me.node is None:
+            return
+        # worth a window only if a task of another node could use it
+        k = 10
+        if sim.draw(k, '?win') >= int(self.windows * k):
+            return
+        depth = self.depth
+        self.parked[me] = depth
+        self.owner = None
+        self.depth = 0
+        self._wake()
+        sim.count('txwin_opened')
+        try:
+            sim.yield_point('txwin', what, force=True)
+            while self.owner is not None:
+                self.waiters.append(me)
+                sim.block(self, 'lock', self.name + ':resume')
+        finally:
+            self.parked.pop(me, None)
+        self.owner = me
+        self.depth = depth
+        # woken waiters of our own node stay blocked through _free_for()
+
+
 class SimLock(SimRLock):
     """Plain mutex used for short critical sections: no yield on acquire."""
 
